@@ -7,7 +7,7 @@
 From Coq Require Import List NArith Arith.
 Import ListNotations.
 From TV Require Import Lib.Obs C11.Model C11.Trace C11.Run C11.Proofs1 C11.Ledger C11.Proofs3 C11.Proofs4
-  C11.Proofs5 C11.Fuel C13.Run C13.Proofs C13.Closing C13.Final C13.Check.
+  C11.Proofs5 C11.Fuel C13.Run C13.Proofs C13.Closing C13.Final C13.ProofsP4 C13.Check.
 
 (* No future is ever settled twice (the log of settlements is append-only, see below). *)
 Theorem C13_settled_at_most_once : forall c m mw p, run_ok (init c m mw) p ->
@@ -126,6 +126,24 @@ Theorem C13_events_after_close_are_ignored : forall r w e so fd s, closed s = tr
   step s (OEvent r w e so fd) = (s, RetNone).
 Proof. exact events_after_close_are_ignored. Qed.
 Print Assumptions C13_events_after_close_are_ignored.
+
+(* Listening invariant (liveness-enabling): in every reachable open state, a pending read implies the
+   stream is registered for READ events, buffered outgoing data implies it is registered for WRITE
+   events, and so does a pending connect - so no reachable state waits on data or on socket
+   writability that the IOLoop would never report.  ([lr]/[lw] = the READ/WRITE bit of `_state`.) *)
+Theorem C13_pending_operations_are_listening : forall c m mw p, run_ok (init c m mw) p ->
+  let s := run (init c m mw) p in
+  closed s = false ->
+  (rd_future s <> None -> lr s = true) /\ (wbuf s <> [] -> lw s = true) /\ (connecting s = true -> lw s = true).
+Proof. exact run_listening. Qed.
+Print Assumptions C13_pending_operations_are_listening.
+
+Example C13_listening_example :
+  let s := run (init 4 4096 None)
+             [OSendScript SBlock; OWrite [7;8]%N; ORead (RBytes 4 false); OArrive (TData [1]%N);
+              OEvent true false false false false] in
+  closed s = false /\ rd_future s <> None /\ wbuf s <> [] /\ lr s = true /\ lw s = true.
+Proof. vm_compute. repeat split; discriminate. Qed.
 
 Theorem C13_model_passes_check : forall c m mw p, run_ok (init c m mw) p ->
   check_case (c, m, mw, p) (run_case (c, m, mw, p)) = true.
